@@ -161,7 +161,7 @@ pub fn corpus() -> Vec<(String, String)> {
             v.push((name, s));
         }
     }
-    for base in ["/repo/testsuite/success_check", "/repo/testsuite/fail_check"] {
+    for base in [format!("{}/testsuite/success_check", repo_dir()), format!("{}/testsuite/fail_check", repo_dir())] {
         if let Ok(rd) = std::fs::read_dir(base) {
             let mut files: Vec<_> = rd.flatten().map(|e| e.path()).collect();
             files.sort();
@@ -208,7 +208,7 @@ pub fn unusual_programs() -> Vec<(&'static str, &'static str)> {
 /// only way such a failure can be attributed to its input. Returns the names that crashed.
 fn prescreen(corpus: &[(String, String)], report: bool, rep: &mut Report) -> std::collections::HashSet<String> {
     let mut crashed = std::collections::HashSet::new();
-    let scc = std::path::PathBuf::from("/verif/engine/target/scc/release/scc");
+    let scc = scc_path();
     if !scc.exists() {
         return crashed;
     }
@@ -453,7 +453,7 @@ fn entry_shapes() -> Vec<String> {
 }
 
 fn binary_slice(rep: &mut Report) {
-    let scc = std::path::PathBuf::from("/verif/engine/target/scc/release/scc");
+    let scc = scc_path();
     if !scc.exists() {
         rep.notes.push("scc binary not built; the binary-level part was not exercised in this run".into());
         return;
